@@ -59,6 +59,10 @@ func (c *c18) Cases(tier string, seed int64) []core.Case {
 				}
 			}
 			cs = append(cs, core.MkCase(fmt.Sprintf("%s-create-s%d", f, s), c18Params{r.Int63(), f, "create", "inputs", "seam", false}))
+			for _, nb := range []int{2, 4, 5, 6} {
+				// block counts that are not 2^k-1 end in a partial last volume
+				cs = append(cs, core.MkCase(fmt.Sprintf("%s-create-b%d-s%d", f, nb, s), c18Params{r.Int63(), f, "create", fmt.Sprintf("inputs-b%d", nb), "seam", false}))
+			}
 			cs = append(cs, core.MkCase(fmt.Sprintf("%s-create-pairs-s%d", f, s), c18Params{r.Int63(), f, "create", "inputs", "seam", true}))
 			for _, st := range []string{"one-damaged", "several-damaged", "intact"} {
 				for _, op := range []string{"verify", "repair", "create"} {
@@ -354,6 +358,10 @@ func (c *c18) Run(cs core.Case) core.Result {
 	w, err := newC18World(p.Fmt, p.Seed, p.State, p.Op == "create")
 	if w != nil {
 		defer w.close()
+		var nb int
+		if _, e := fmt.Sscanf(p.State, "inputs-b%d", &nb); e == nil && nb > 0 {
+			w.blocks = nb
+		}
 	}
 	if err != nil {
 		r.Violate("setup-create-failed", "%v", err)
